@@ -188,7 +188,18 @@ def rand_operator(r, kind=None):
         terms.append({"ops": ops, "c": rand_coef(r)})
         if r.random() < 0.15:
             terms.append({"ops": dict(ops), "c": rand_coef(r)})
-    return {"kind": "sum", "terms": terms, "simplify": r.random() < 0.5}
+    spec = {"kind": "sum", "terms": terms, "simplify": r.random() < 0.5}
+    if terms and r.random() < 0.12:
+        # two like terms that nearly cancel: huge opposite coefficients whose exact sum (an integer-valued double) is
+        # small next to them - and far above the library's absolute 1e-8 zero tolerance
+        ops = dict(r.choice(terms)["ops"]) or {str(qpool[0]): "Z"}
+        big = float(r.randint(1, 9) * 10 ** r.randint(8, 12))
+        delta = float(r.choice([1, 2, 5, 30, 1000]))
+        terms.insert(r.randrange(len(terms) + 1), {"ops": ops, "c": big})
+        terms.insert(r.randrange(len(terms) + 1), {"ops": dict(ops), "c": -big + delta})
+        spec["simplify"] = False
+        spec["cancelling"] = True
+    return spec
 
 
 def perturb(r, spec):
